@@ -30,7 +30,7 @@ Theorem c04_facts_sound : forall r P compl,
   (if compl
    then f_suffix (r_facts r) = P /\ f_min (r_facts r) = len P /\ f_max (r_facts r) = len P
    else accepted_length_cached (r_prog r) = Some (f_min (r_facts r), f_max (r_facts r)) /\
-        constant_suffix (r_prog r) = Some (f_suffix (r_facts r))) ->
+        constant_suffix_b (r_prog r) = Some (f_suffix (r_facts r))) ->
   facts_sound r.
 Proof. exact facts_sound_model. Qed.
 
@@ -131,7 +131,7 @@ Definition rx_ab_c : rx := mkRx          (* ab+c : prefix "ab", no suffix (a loo
   2 (mkFacts [97; 98]%N [] 3%N MAXU).
 Example c04_ex_facts : wf (r_prog rx_ab_c) = true /\ assertion_free (r_prog rx_ab_c) = true /\
   prog_prefix (r_prog rx_ab_c) = ([97; 98]%N, false) /\
-  accepted_length_cached (r_prog rx_ab_c) = Some (3%N, MAXU) /\ constant_suffix (r_prog rx_ab_c) = Some [].
+  accepted_length_cached (r_prog rx_ab_c) = Some (3%N, MAXU) /\ constant_suffix_b (r_prog rx_ab_c) = Some [].
 Proof. vm_compute. auto 10. Qed.
 Example c04_ex_find :
   find 200 true rx_ab_c [120; 97; 98; 120; 97; 98; 98; 99; 120; 99]%N 0 = (Some [Some 3; Some 7], 1) /\
@@ -143,7 +143,7 @@ Definition rx_a_c : rx := mkRx           (* a.c : prefix "a", suffix "c", length
   2 (mkFacts [97]%N [99]%N 3%N 3%N).
 Example c04_ex_facts2 : wf (r_prog rx_a_c) = true /\ assertion_free (r_prog rx_a_c) = true /\
   prog_prefix (r_prog rx_a_c) = ([97]%N, false) /\
-  accepted_length_cached (r_prog rx_a_c) = Some (3%N, 3%N) /\ constant_suffix (r_prog rx_a_c) = Some [99%N].
+  accepted_length_cached (r_prog rx_a_c) = Some (3%N, 3%N) /\ constant_suffix_b (r_prog rx_a_c) = Some [99%N].
 Proof. vm_compute. auto 10. Qed.
 Example c04_ex_find2 :
   find 200 true rx_a_c [120; 97; 120; 99; 99; 120]%N 0 = (Some [Some 0; Some 3], 1) /\
